@@ -142,8 +142,11 @@ def regression_scenarios():
                     {'op': 'fit', 'max_epochs': 2, 'cbs': [[]] + rec_cb, 'cb_order': [0, 0, 1], 'cb_container': 'tuple'}])
     nan = dict(base, nbt=2, opt={'kind': 'sgd', 'lr': 0.25}, metric_special={'0': [None, 'nan', None, None, 'inf', 'zero']},
                ops=[{'op': 'fit', 'max_epochs': 3, 'cbs': rec_cb}])
+    # batches of different sizes inside one epoch: the metric entry is the mean over the BATCHES, not over the points
+    rag = dict(base, nbt=2, nbv=2, opt={'kind': 'sgd', 'lr': 0.25}, train_script=[[[1, 2, 0, 3]], [[2]], [[0, 1, 1]]],
+               valid_script=[[[2]], [[1, 0, 3]]], ops=[{'op': 'fit', 'max_epochs': 3, 'cbs': rec_cb}])
     return [('fixed-F11-fit0', f11, True), ('fixed-F6-closure-metric', f6, True), ('repeated-callback-object', dup, True),
-            ('nan-metric', nan, False)]
+            ('nan-metric', nan, False), ('ragged-batches', rag, True)]
 
 
 def main():
@@ -182,7 +185,9 @@ def main():
         else:
             sc = T.gen_scenario(r, opt_kinds=('sgd', 'script', 'sgd'),
                                 cb_actions=('stop', 'set_nb', 'stop', 'set_nb', 'set_opt') + (('real_monitor', 'real_stop') if i % 7 == 3 else ()),
-                                between_actions=('set_nb',) if i % 4 == 0 else (), lids=(0, 1, 0, 3), dup_callbacks=(i % 3 == 1))
+                                between_actions=('set_nb',) if i % 4 == 0 else (), lids=(0, 1) if i % 3 == 0 else (0, 1, 0, 3),
+                                dup_callbacks=(i % 3 == 1), ragged=(i % 3 == 0), nmetrics=(1, 2) if i % 3 == 0 else (0, 2),
+                                nbt=(2, 3) if i % 3 == 0 else (1, 3))
             camp.add(f'exact#{i}', sc, exact=True)
     camp.correspond()
     if ck.broken and not [f for f in ck.failures]:
